@@ -37,6 +37,8 @@ def run(tier):
             n2 += cond.gscon_oracle(chk, 'C12.D2', prog, eff, p, cfgname)
             cond.pivotgrowth_rules(chk, 'C12.D3', prog, p, cfgname)
         kernels.run_basic(chk, 'C12.kern', prog, cfgname, ('trsv',), floor_scratch=4)
+        chk.clause('C12.kern.const', 'locals that stand for constants are not also used as scratch')
+        kernels.constant_names_rule(chk, 'C12.kern.const', prog, cfgname)
         chk.clause('C12.kern.sweep', 'sp_?trsv solves every supernode')
         for p in _drv.PRECS:
             kernels.supernode_sweep_rule(chk, 'C12.kern.sweep', prog, p, cfgname)
